@@ -1017,7 +1017,12 @@ func callBuiltin(caller *frame, callpos token.Pos, fn *ssa.Builtin, args []value
 			if len(args[0].([]value)) == 0 {
 				return a1
 			}
-			panic(unsupported{"append of a modelled JSON blob to non-empty bytes"})
+			// a blob without symbolic leaves is its text
+			var tb bytes.Buffer
+			if jsonText(&tb, a1.root) {
+				return append(args[0].([]value), bytesVal(tb.Bytes())...)
+			}
+			panic(unsupported{"append of a modelled JSON blob with symbolic leaves to non-empty bytes"})
 		}
 		if b0, ok := args[0].(*blob); ok {
 			if len(args[1].([]value)) == 0 {
